@@ -445,7 +445,9 @@ func (m *machine) run(fn *ssa.Function, args []aval, depth int) []aval {
 						m.fail("index out of range at %s", m.w.InstrPos(in))
 						return nil
 					}
-					f.env[x] = &acell{v: s.elems[i]}
+					// &keys[i] of a key list is a key cell (keys[i][:] yields the key bytes)
+					_, isArr := deref(x.Type()).Underlying().(*types.Array)
+					f.env[x] = &acell{v: s.elems[i], isKey: isArr}
 				case *acell:
 					// &arr[i] of a local array (varargs): one-element backing store
 					f.env[x] = s
